@@ -541,6 +541,19 @@ class World:
                 t['dirty'] = True
                 self.dirty = True
                 self.cancel_events.append(ev)
+                hold = a[3] if len(a) > 3 else None
+                if hold and not atomic:
+                    # hold the canceller at the first scheduling point inside
+                    # cancel() until the transfer reached a given state
+                    tidx = t['idx']
+                    if hold == 'inflight':
+                        pred = lambda: self.open_requests_of(tidx) > 0      # noqa: E731
+                    elif hold == 'running':
+                        pred = lambda: coord.status == 'running'            # noqa: E731
+                    else:
+                        pred = lambda: coord.status in ('success', 'failed')  # noqa: E731
+                    sim.park_at_next_point(pred, 400)
+                    self.probe('cancel-held-until-' + hold)
                 try:
                     t['future'].cancel()
                 finally:
